@@ -689,3 +689,110 @@ def c07_wingbox_symmetry(rng, tier):
         f["finding"] = "F7"
         return [f]
     return []
+
+
+# ---------------------------------------------------------------------------------------
+# C16 at group level: the wiring of the inertial, fuel, point-mass and thrust loads in SpatialBeamAlone
+# ---------------------------------------------------------------------------------------
+@oracle("C16", "group_level_load_totals")
+def c16_group_totals(rng, tier):
+    """SpatialBeamAlone with weight relief, (wingbox) distributed fuel and point masses / engines switched on in random
+    combinations: the loads the FEM actually receives minus the applied loads sum to -(m_struct + m_fuel + m_point) g n
+    vertically and to the thrust forwards, and scale with the load factor"""
+    import openmdao.api as om
+    from openaerostruct.structures.struct_groups import SpatialBeamAlone
+    from openaerostruct.utils.constants import grav_constant
+    fem = str(rng.choice(["tube", "wingbox"]))
+    s = _as_surface(rng, tier, fem=fem, struct_weight_relief=bool(rng.integers(2)))
+    fuel = bool(fem == "wingbox" and rng.integers(2))
+    s["distributed_fuel_weight"] = fuel
+    npm = int(rng.choice([0, 1, 2]))
+    if npm:
+        s["n_point_masses"] = npm
+    if not (s["struct_weight_relief"] or fuel or npm):
+        s["struct_weight_relief"] = True
+    ny = s["mesh"].shape[1]
+    lf = float(rng.choice([1.0, 2.5, -1.0]))
+    loads = rng.normal(size=(ny, 6)) * 1e3
+    masses = rng.uniform(500, 3000, size=(npm, 1)); thrusts = rng.uniform(5e3, 4e4, size=(npm, 1))
+    locs = np.column_stack([rng.uniform(0, 2, npm), -rng.uniform(0.5, 4.0, npm), rng.uniform(-1, 0, npm)]) if npm else np.zeros((0, 3))
+    fuel_mass = float(rng.uniform(500, 5000))
+    def run(lf_):
+        prob = om.Problem(reports=False)
+        ivc = om.IndepVarComp()
+        ivc.add_output("loads", val=loads, units="N"); ivc.add_output("load_factor", val=lf_)
+        if npm:
+            ivc.add_output("point_masses", val=masses, units="kg"); ivc.add_output("point_mass_locations", val=locs, units="m")
+            ivc.add_output("engine_thrusts", val=thrusts, units="N")
+        if fuel:
+            ivc.add_output("fuel_mass", val=fuel_mass, units="kg")
+        prob.model.add_subsystem("ivc", ivc, promotes=["*"])
+        prob.model.add_subsystem("wing", SpatialBeamAlone(surface=s))
+        prob.model.connect("loads", "wing.loads"); prob.model.connect("load_factor", "wing.load_factor")
+        if npm:
+            for k in ("point_masses", "point_mass_locations", "engine_thrusts"):
+                prob.model.connect(k, "wing." + k)
+        if fuel:
+            prob.model.connect("fuel_mass", "wing.struct_states.fuel_mass")
+            prob.model.connect("wing.struct_setup.fuel_vols", "wing.struct_states.fuel_vols")
+        with quiet():
+            prob.setup(); prob.run_model()
+        tot = np.array(prob.get_val("wing.struct_states.total_loads"))
+        em = np.array(prob.get_val("wing.element_mass")).ravel()
+        return tot, em
+    tot, em = run(lf)
+    extra = tot - loads
+    out = []
+    case = dict(fem_model_type=fem, symmetry=s["symmetry"], weight_relief=s["struct_weight_relief"], distributed_fuel=fuel, n_point_masses=npm,
+                load_factor=lf, ny=ny)
+    m = 0.0
+    if s["struct_weight_relief"]:
+        m += float(em.sum())
+    if fuel:
+        m += (fuel_mass + s["Wf_reserve"]) / (2.0 if s["symmetry"] else 1.0)
+    if npm:
+        m += float(masses.sum())
+    fz = float(extra[:, 2].sum()); fx = float(extra[:, 0].sum()); fy = float(extra[:, 1].sum())
+    req_z = -m * grav_constant * lf
+    if abs(fz - req_z) > 1e-8 * max(abs(req_z), 1.0):
+        out.append(_fail("the inertial loads received by the FEM do not sum to -(structural + fuel + point masses) g n", fz, req_z, **case))
+    req_x = -float(thrusts.sum()) if npm else 0.0
+    if abs(fx - req_x) > 1e-8 * max(abs(req_x), 1.0) or abs(fy) > 1e-8 * max(abs(req_z), 1.0):
+        out.append(_fail("the thrust loads received by the FEM do not sum to the thrust acting forwards", [fx, fy], [req_x, 0.0], **case))
+    # linear in the load factor (everything but the thrust)
+    tot2, _ = run(lf * 2.0)
+    ez2 = float((tot2 - loads)[:, 2].sum())
+    if abs(ez2 - 2.0 * fz) > 1e-8 * max(abs(fz), 1.0):
+        out.append(_fail("the inertial loads received by the FEM are not proportional to the load factor", ez2, 2.0 * fz, **case))
+    return out
+
+
+# ---------------------------------------------------------------------------------------
+# C15 at group level: SpatialBeamFunctionals wiring (which stresses, which allowable, which aggregation)
+# ---------------------------------------------------------------------------------------
+@oracle("C15", "group_level_failure")
+def c15_group_failure(rng, tier):
+    """SpatialBeamAlone (tube / wingbox, KS or exact failure): the reported failure is the aggregation of the group's own von Mises
+    stresses over the surface's allowable; KS lies in [max, max + ln(N)/rho]"""
+    fem = str(rng.choice(["tube", "wingbox"]))
+    exact = bool(rng.integers(2))
+    s = _as_surface(rng, tier, fem=fem, exact_failure_constraint=exact)
+    s["yield"] = float(rng.uniform(1e8, 4e8))
+    ny = s["mesh"].shape[1]
+    loads = rng.normal(size=(ny, 6)) * 2e4
+    p = pipelines.build_struct_alone(s, loads)
+    with quiet():
+        p.run_model()
+    vm = np.array(p.get_val("wing.vonmises")); fail = np.array(p.get_val("wing.failure"))
+    g = vm / s["yield"] - 1.0
+    out = []
+    case = dict(fem_model_type=fem, exact_failure_constraint=exact, symmetry=s["symmetry"], ny=ny)
+    if exact:
+        if fail.shape != g.shape or relerr(fail, g) > 1e-12:
+            out.append(_fail("exact failure is not (von Mises / allowable) - 1 of the group's own stresses", fail.ravel()[:4], g.ravel()[:4], **case))
+    else:
+        gm = float(g.max()); f = float(np.atleast_1d(fail).ravel()[0]); N = g.size
+        rho = 100.0
+        if f < gm - 1e-10 or f > gm + np.log(N) / rho + 1e-10:
+            out.append(_fail("aggregated failure is outside [max, max + ln(N)/rho] of the group's own stress ratios", f, [gm, gm + np.log(N) / rho], **case))
+    return out
